@@ -64,7 +64,7 @@ CodecLens == IF Tier = "quick" THEN {0, 1, 2, 31, 32, 33, 48, 63, 64} ELSE 0 .. 
 RndVals(n) == {"rnd" \o ToString(i) : i \in 1 .. n}
 CodecVals == {"0", "1", "255", "256", "r-1", "r", "r+1", "2r", "p-1", "p", "2^256-1", "2^255", "max", "hi", "lo",
               \* multiples of r below 2^256 (r is about 2^252.9), and values that agree with r on its top 192/128/64 bits or differ from it in one 64-bit limb only
-              "h-1", "h", "h+1", "3r", "4r+1", "5r-1", "8r", "8r-1", "r~64", "r~128", "r~192", "r+2^64", "r-2^64", "r+2^128", "r-2^128", "r+2^192", "r-2^192"} \cup RndVals(IF Tier = "quick" THEN 3 ELSE 150)
+              "2^63", "2^64-1", "2^64", "2^127", "2^128-1", "2^191", "2^192-1", "h-1", "h", "h+1", "3r", "4r+1", "5r-1", "8r", "8r-1", "r~64", "r~128", "r~192", "r+2^64", "r-2^64", "r+2^128", "r-2^128", "r+2^192", "r-2^192"} \cup RndVals(IF Tier = "quick" THEN 3 ELSE 150)
 CodecCases ==
   {[Blank EXCEPT !.fn = f, !.len = n, !.val = v] : f \in {"SetBytes", "SetBytesLE"}, n \in CodecLens, v \in CodecVals}
   \cup {[Blank EXCEPT !.fn = f, !.len = n, !.val = v] : f \in {"SetBytesLECanonical"}, n \in CodecLens, v \in CodecVals}
